@@ -3,10 +3,11 @@
    N, Z, Q stay extracted inductives.  No Extract Constant. *)
 Require Extraction.
 Require Import ExtrOcamlBasic.
-From KV Require Import Model.Triu Model.Greedy Model.Kaisa Model.Trace Model.Sched Model.Register Model.Neox Model.Bucket.
+From KV Require Import Model.Triu Model.Greedy Model.Kaisa Model.Trace Model.Sched Model.Register Model.Neox Model.Bucket Model.Coll.
 Extraction "model.ml" triu_idx fill_index_matrix sym_comm_outcome
   greedy greedy_ok_b greedy_prop_b kaisa_view
   Trace.run Sched.srun Sched.ctor_ok Sched.exp_decay_q
   Register.register Register.named_modules Register.hooks Register.table_fun
   Neox.neox_view Neox.neox_greedy Neox.neox_ok_b Neox.newgroup_trace_old
-  Bucket.brun Bucket.offsets.
+  Bucket.brun Bucket.offsets
+  Coll.proj_ok_b Coll.global_order.
